@@ -93,10 +93,10 @@ Proof. vm_compute. repeat split. Qed.
    Totality (no Raise in years 2..9997 minus the skip reach) is not stated here;
    Raise only arises when an end would leave years 1..9999. *)
 From Coq Require ZArith QArith List Bool.
-From Labella Require Time.Calendar Time.Interval Time.IntervalSpec Time.TimeScale Time.TimeTicks Time.TimeNice Time.TimeNiceProofs Time.NiceBoundProofs.
+From Labella Require Time.Calendar Time.Interval Time.IntervalSpec Time.TimeScale Time.TimeTicks Time.TimeNice Time.TimeNiceProofs Time.TickCountProofs Time.NiceBoundProofs.
 Module TimePart.
 Import ZArith QArith List Bool.
-Import Time.Calendar Time.Interval Time.IntervalSpec Time.TimeScale Time.TimeTicks Time.TimeNice Time.TimeNiceProofs Time.NiceBoundProofs.
+Import Time.Calendar Time.Interval Time.IntervalSpec Time.TimeScale Time.TimeTicks Time.TimeNice Time.TimeNiceProofs Time.TickCountProofs Time.NiceBoundProofs.
 Import ListNotations Sorted.
 Open Scope Z_scope.
 (* tnice_outward + tnice_aligned: the smaller end only moves down, the larger end
@@ -142,6 +142,48 @@ Theorem C14T_number_succ : forall u x x', u <> UWeek -> valid x -> valid x' ->
 Proof. exact number_succ. Qed.
 Print Assumptions C14T_number_succ.
 
+(* tnice_row_bounds: the statement without an existential.  (gmin, gmax) :=
+   meth_bounds meth are the separation and density of the row of the method
+   table that tickMethod picks for the ORIGINAL domain (Time/TickRows.v):
+   gmax <= 2 gmin; every gap of the original domain's ticks lies in [gmin, gmax];
+   each end moves outward by less than gmax; and the ticks of the NICED domain
+   under the same method contain both new ends (at least two ticks unless the
+   niced domain is a point) with gaps in [gmin, gmax] as well.  So each end moves
+   by less than two tick steps measured on ticks that always exist, also when the
+   original domain has 0 or 1 ticks (small m). *)
+Theorem C14T_tnice_row_bounds : forall d0 d1 m n0 n1 meth,
+  valid d0 -> valid d1 -> ms_resolution d0 -> ms_resolution d1 ->
+  ts_nice d0 d1 m = Ok (n0, n1) ->
+  tick_method_of (to_ms (dom_lo d0 d1)) (to_ms (dom_hi d0 d1)) m = Ok meth ->
+  0 < fst (meth_bounds meth) /\ snd (meth_bounds meth) <= 2 * fst (meth_bounds meth) /\
+  (forall l, ts_ticks d0 d1 m = Ok l ->
+     Sorted (fun x y => fst (meth_bounds meth) <= to_us y - to_us x <= snd (meth_bounds meth)) l) /\
+  (if to_us d1 <? to_us d0
+   then to_us d1 - to_us n1 < snd (meth_bounds meth) /\ to_us n0 - to_us d0 < snd (meth_bounds meth)
+   else to_us d0 - to_us n0 < snd (meth_bounds meth) /\ to_us n1 - to_us d1 < snd (meth_bounds meth)) /\
+  (forall t1 l', valid t1 -> to_us t1 = to_us (nice_hi d0 d1 n0 n1) + 1000 ->
+     ni_range meth (nice_lo d0 d1 n0 n1) t1 = Ok l' ->
+     In (to_us (nice_lo d0 d1 n0 n1)) (map to_us l') /\ In (to_us (nice_hi d0 d1 n0 n1)) (map to_us l') /\
+     Sorted (fun x y => fst (meth_bounds meth) <= to_us y - to_us x <= snd (meth_bounds meth)) l' /\
+     (to_us (nice_lo d0 d1 n0 n1) < to_us (nice_hi d0 d1 n0 n1) -> (2 <= length l')%nat)).
+Proof. exact tnice_row_bounds. Qed.
+Print Assumptions C14T_tnice_row_bounds.
+
+(* the audit's example: 2001-02-01 .. 2003-12-01, m = 2: ONE original tick
+   (2002-01-01); nice gives 2000-01-01 .. 2004-01-01; the method is (year, 2):
+   gmin = 730 days, gmax = 732 days; the niced domain's ticks 2000, 2002, 2004 *)
+Example C14T_ex_one_tick :
+  ts_ticks (mkdt 2001 2 1 0 0 0 0) (mkdt 2003 12 1 0 0 0 0) 2 = Ok [mkdt 2002 1 1 0 0 0 0] /\
+  ts_nice (mkdt 2001 2 1 0 0 0 0) (mkdt 2003 12 1 0 0 0 0) 2 =
+    Ok (mkdt 2000 1 1 0 0 0 0, mkdt 2004 1 1 0 0 0 0) /\
+  tick_method_of (to_ms (mkdt 2001 2 1 0 0 0 0)) (to_ms (mkdt 2003 12 1 0 0 0 0)) 2 = Ok (TUnit UYear 2) /\
+  meth_bounds (TUnit UYear 2) = (730 * 86400000000, 732 * 86400000000) /\
+  ni_range (TUnit UYear 2) (mkdt 2000 1 1 0 0 0 0) (mkdt 2004 1 1 0 0 0 1000) =
+    Ok [mkdt 2000 1 1 0 0 0 0; mkdt 2002 1 1 0 0 0 0; mkdt 2004 1 1 0 0 0 0].
+Proof. vm_compute. repeat split. Qed.
+
+(* tnice_lt_two_ticks (corollary of the above; when the original domain has fewer
+   than two ticks its gap clause is empty - use C14T_tnice_row_bounds then) *)
 (* tnice_lt_two_ticks: each end moves outward by less than two tick steps of the
    ORIGINAL domain's ticks: all gaps of ts_ticks d0 d1 m lie in [g, 2 g] and each
    end moves by less than 2 g *)
